@@ -128,6 +128,21 @@ def strategy(tier):
     return cases()
 
 
+def exhaustive(tier):
+    """every class of invalid reference on a fixed small circuit, with and without an explicit
+    finalize(), references created before or after it"""
+    def gen():
+        for neg in NEGATIVES:
+            for explicit, late in ((False, False), (True, False), (True, True)):
+                yield {'ns': 1, 'tricky': False,
+                       'cblocks': [{'kind': 'noop', 'pos': [['name', 's0']], 'named': {}}],
+                       'events': [{'dest': 0, 'byname': True}],
+                       'filters': [{'kind': 'ifoutput', 'ctrl': 's0', 'byname': True}],
+                       'explicit': explicit, 'late': late, 'order': ['s0', 'c0'], 'negative': neg}
+    return (f"each of the {len(NEGATIVES)} classes of invalid references on a two-block circuit x "
+            "{implicit finalisation, explicit finalize(), references created after finalize()}", gen())
+
+
 # ---------------------------------------------------------------- executor
 def execute(case):
     res = Result()
